@@ -837,7 +837,16 @@ func (x *Exec) loopEnv(st *State, fr *Frame, ld *loopDesc) *CEnv {
 		}
 	}
 	// contract calls of the current iteration: called_<name>, call_<name>_arg<i>, call_<name>_r<i>
-	x.bindCallRecords(st, fr.fn, vars, fr.lastCall)
+	recs := fr.lastCall
+	if lr := fr.loopRec[ld.head]; lr != nil && lr.headSeq > 0 {
+		recs = map[string]callRec{}
+		for n, r := range fr.lastCall {
+			if r.seq > lr.headSeq {
+				recs[n] = r
+			}
+		}
+	}
+	x.bindCallRecords(st, fr.fn, vars, recs)
 	_, tp := x.contractFor(fr.fn)
 	if fr.depth == 0 {
 		tp = x.tparam
@@ -1075,7 +1084,8 @@ func (x *Exec) cutLoop(st *State, fr *Frame, ld *loopDesc, spec *LoopSpec, phis 
 	x.havocLoop(st, fr, ld, phis, rec.mods)
 	st.loopStores = nil
 	st.loopFresh = false
-	fr.lastCall = nil // step clauses speak about the calls of one iteration
+	x.fresh++
+	headSeq := x.fresh // step clauses speak about the calls of one iteration: those recorded after this point
 	env := x.loopEnv(st, fr, ld)
 	{
 		henv := x.loopEnv(st, fr, ld)
@@ -1114,7 +1124,7 @@ func (x *Exec) cutLoop(st *State, fr *Frame, ld *loopDesc, spec *LoopSpec, phis 
 		st.assume(t)
 		x.noteAssumption(fmt.Sprintf("%s loop %d: assumed %s", fnKey(fr.fn), ld.ordinal, a.Text))
 	}
-	lr := &loopRec{modified: rec.mods}
+	lr := &loopRec{modified: rec.mods, headSeq: headSeq}
 	if spec.Decreases != nil {
 		m, err := env.evalAny(spec.Decreases.Expr)
 		if err == nil {
